@@ -3,20 +3,31 @@
 import json, os, random
 from verif.core import Infra
 META = dict(
-    technique="TLA+ negotiation table (CompressNegotiation.tla) enumerated and meta-checked by TLC, every case replayed through a real Server wrapped by CompressHandler*/CompressHandlerBrotli* and decoded with independent decoders (B3); TLC exhaustive model check of Stackless.tla (bounded queue, workers, caller-side wrapper; ExactlyOnce) incl. an unsafe-wrapper self-test; stackless.NewFunc saturated for certain with a harness-owned function, exec/return log validated by TLC (B2); saturation recipe on the real codecs (first call at GOMAXPROCS(1), then >= 3 x 2048 simultaneous Append*/Write*Level calls) with round-trip checks",
+    technique="TLA+ negotiation table (CompressNegotiation.tla) enumerated and meta-checked by TLC, every case replayed through a real Server wrapped by CompressHandler*/CompressHandlerBrotli* and decoded with independent decoders (B3); TLC exhaustive model check of Stackless.tla (bounded queue, workers, caller-side wrapper; ExactlyOnce) incl. an unsafe-wrapper self-test; stackless.NewFunc saturated for certain with a harness-owned function, exec/return log validated by TLC (B2); saturation recipe on the real codecs (first call at GOMAXPROCS(1), then >= 3 x 2048 simultaneous Append*/Write*Level calls) with round-trip checks; StacklessWriter.tla (one pooled writer serving several streams with healthy / failing destinations, NoCarry) model-checked and its behaviours replayed on the real stackless.Writer (B1), plus fault sequences through Write*Level and abandoned streamed CompressHandler responses",
     design_ref="DESIGN.md §4 C22",
-    text="Negotiation: all Accept-Encoding lists of <= N distinct members over {gzip, deflate, br, zstd, identity, compress, gzip;q=0} (both ', ' and ',' separators, or absent) x wrapper x buffered/streamed x sizes {0,199,200,5000} x compressible/incompressible type x pre-set Content-Encoding, random levels incl. out-of-range; the response's declared encoding must be in the table's allowed set, carry Vary when compressed, and decode to the wrapped handler's body (multi-MiB bodies included). Queue: Stackless.tla is model-checked for 4 callers, 1 worker, Q in {1,2}; the real stackless.NewFunc (capacity fixed at 2048 by GOMAXPROCS(1)) is driven past saturation and every exec/return event is validated against the spec; the four codecs are saturated the same way and every call that reports success must round-trip.",
+    text="Negotiation: all Accept-Encoding lists of <= N distinct members over {gzip, deflate, br, zstd, identity, compress, gzip;q=0} (both ', ' and ',' separators, or absent) x wrapper x buffered/streamed x sizes {0,199,200,5000} x compressible/incompressible type x pre-set Content-Encoding, random levels incl. out-of-range; the response's declared encoding must be in the table's allowed set, carry Vary when compressed, and decode to the wrapped handler's body (multi-MiB bodies included). Queue: Stackless.tla is model-checked for 4 callers, 1 worker, Q in {1,2}; the real stackless.NewFunc (capacity fixed at 2048 by GOMAXPROCS(1)) is driven past saturation and every exec/return event is validated against the spec; the four codecs are saturated the same way and every call that reports success must round-trip. Pooled writers: StacklessWriter.tla says a failed hand-over drops the buffered output and Reset starts the next stream empty (NoCarry); all operation sequences of 5-6 steps over 3 streams x destination kinds {ok, fails always, fails after its first write} are replayed on stackless.NewWriter, and at GOMAXPROCS(1) every codec is driven through failing-then-healthy destination sequences and abandoned-then-complete streamed responses: the healthy one must decode to its own body.",
     note="Trusted: independent decoders (compress/gzip, compress/zlib, andybalholm/brotli, klauspost zstd DecodeAll); codecs treated as Dec(Enc(x)) = x. Trace validation takes submission/wake-up as composite steps with the logged exec/return (no hook in stackless/func.go was added); whether the queue was really full at a rejection is not checked (a rejection is always allowed). The codec bursts are checked directly (round trip), not by TLC.",
 )
 
 
 def run(ctx):
-    # ---- queue model
+    # ---- queue model and pooled-writer model
     for q in ctx.pick([1], [1, 2]):
         ctx.tlc_mc("util", "Stackless", "StacklessMC.cfg", consts={"Q": q}, workers=4, timeout=900)
-    r = ctx.tlc("util", "Stackless", "StacklessUnsafe.cfg", workers=2, timeout=300, allow_codes=tuple(range(256)))
-    if "Invariant Inv is violated" not in r["out"]:
-        raise Infra("self-test failed: a wrapper that ignores 'queue full' does not violate ExactlyOnce in Stackless.tla")
+    if not ctx.quick:   # non-vacuity self-tests of the two invariants (thorough tier)
+        r = ctx.tlc("util", "Stackless", "StacklessUnsafe.cfg", workers=2, timeout=300, allow_codes=tuple(range(256)))
+        if "Invariant Inv is violated" not in r["out"]:
+            raise Infra("self-test failed: a wrapper that ignores 'queue full' does not violate ExactlyOnce in Stackless.tla")
+        r = ctx.tlc("util", "StacklessWriter", "StacklessWriterUnsafe.cfg", workers=2, timeout=300, allow_codes=tuple(range(256)))
+        if "Invariant Inv is violated" not in r["out"]:
+            raise Infra("self-test failed: a writer that keeps its buffer across a failed hand-over does not violate NoCarry in StacklessWriter.tla")
+    _, wbeh = ctx.tlc_gen("util", "StacklessWriterGen", "StacklessWriterGen.cfg", consts={"OPS": ctx.pick(5, 6)}, workers=4, timeout=900)
+    if not wbeh:
+        raise Infra("StacklessWriterGen produced no behaviours")
+    wp = os.path.join(ctx.scratch, "c22_writer_beh.ndjson")
+    with open(wp, "w") as f:
+        for b in wbeh:
+            f.write(json.dumps(b) + "\n")
     # ---- negotiation table
     vp, _ = ctx.tlc_gen("data", "CompressNegotiation", "CompressNegotiation.cfg", outfile="negvectors.ndjson",
                         consts={"MAXL": ctx.pick(2, 3)}, workers=2, timeout=900)
@@ -25,12 +36,13 @@ def run(ctx):
     lines = open(vp).read().splitlines()
     total = len(lines)
     random.Random(ctx.seed).shuffle(lines)
-    lines = lines[:ctx.pick(1500, 40000)]
+    lines = lines[:ctx.pick(1000, 40000)]
     p = os.path.join(ctx.scratch, "c22_neg.ndjson")
     open(p, "w").write("\n".join(lines) + "\n")
-    # ---- real stackless.NewFunc, saturated; log validated by TLC
-    recs = ctx.go_test("stackless", ["c22_"], "^TestVerifC22", timeout=1700,
-                       env={"VERIF_C22_ROUNDS": ctx.pick(1, 4), "VERIF_C22_EXTRA": ctx.pick(300, 1200)})
+    # ---- real stackless.NewFunc, saturated (log validated by TLC); real stackless.Writer replaying the
+    # StacklessWriter behaviours (fault sequences of destinations over one pooled writer)
+    recs = ctx.go_test("stackless", ["c22_"], "^TestVerifC22", timeout=1700, infile=wp,
+                       env={"VERIF_C22_ROUNDS": ctx.pick(1, 4), "VERIF_C22_EXTRA": ctx.pick(100, 1200)})
     ctx.absorb(recs)
     tf = ctx.extra.pop("trace_file", None)
     if not tf or not os.path.exists(tf):
@@ -54,10 +66,12 @@ def run(ctx):
         if ok:
             raise Infra("self-test failed: StacklessTrace accepted a log in which a rejected call reports success")
         ctx.extra["trace_selftest_rejected_at"] = at
-    # ---- real codecs: saturation recipe + sequential sweep, then the negotiation table through a server
+    # ---- real codecs: saturation recipe + sequential sweep, the negotiation table through a server, and
+    # fault sequences (failing destination / abandoned streamed response, then a healthy call)
     try:
         recs = ctx.go_test(".", ["c22_"], "^TestVerifC22", infile=p, timeout=1700, test_timeout=1600,
-                           env={"VERIF_C22_BURSTS": ctx.pick(1, 3), "VERIF_C22_BURST_ZSTD": ctx.pick(2048 + 600, 3 * 2048 + 100)})
+                           env={"VERIF_C22_BURSTS": ctx.pick(1, 3), "VERIF_C22_BURST_LIGHT": ctx.pick(2048 + 600, 3 * 2048 + 100),
+                                "VERIF_C22_STREAM_ROUNDS": ctx.pick(3, 10)})
         ctx.absorb(recs)
     except Infra as e:
         # a crash of the codec harness is an infrastructure error -- unless the stackless part has
@@ -70,7 +84,9 @@ def run(ctx):
     ctx.extra["negotiation_table_size"] = total
     ctx.rule = ("negotiation case = one table row through a real server (non-trivial = the response was compressed); "
                 "codec call = one Append*/Write*Level call (non-trivial = made inside a >= 3 x capacity burst); "
-                "stackless call = one call of the saturated NewFunc wrapper (non-trivial = rejected)")
+                "stackless call = one call of the saturated NewFunc wrapper (non-trivial = rejected); "
+                "writer behaviour = one StacklessWriterGen operation sequence replayed on stackless.Writer (non-trivial = has a failing destination); "
+                "fault-sequence case = one Write*Level call / streamed response in a sequence with failing destinations")
     ctx.assumptions = ["queue capacity/worker count fixed by making the first call of each entry point at GOMAXPROCS(1)",
                        "Accept-Encoding members are q-less except the adversarial 'gzip;q=0'",
-                       "quick tier: lists of <= 2 members, 1500 sampled rows; thorough: <= 3 members, all rows"]
+                       "quick tier: lists of <= 2 members, 1000 sampled rows; thorough: <= 3 members, all rows"]
